@@ -1,6 +1,7 @@
 package main
 
 import (
+	"sort"
 	"go/ast"
 	"go/constant"
 	"go/token"
@@ -288,9 +289,11 @@ func (fc *FuncCtx) errVarAt(at int, obj types.Object, classify func(ast.Expr) Er
 			}
 			if k == ErrUnknown {
 				// refine by the test edges crossed after this def
-				if !fc.defReachesAvoiding(d, at, obj, filterEdgesSoleDef(fc, nonNilEdges, obj, d)) {
+				// a test crossed on a path from this definition that passes no other definition
+				// of the variable speaks about the value defined here
+				if !fc.defReachesAvoiding(d, at, obj, nonNilEdges) {
 					k = ErrNonNil
-				} else if !fc.defReachesAvoiding(d, at, obj, filterEdgesSoleDef(fc, nilEdges, obj, d)) {
+				} else if !fc.defReachesAvoiding(d, at, obj, nilEdges) {
 					k = ErrNil
 				}
 			}
@@ -445,5 +448,135 @@ func fieldInits(fc *FuncCtx, field string) []ast.Expr {
 		}
 		return true
 	})
+	return out
+}
+
+// builtValue: one value of a struct type being put together in a function — the fields it is
+// given, whether by a composite literal or by assignments to a variable that starts as new(T),
+// &T{…}, T{…} or a zero declaration.
+type builtValue struct {
+	Pos    token.Pos
+	Fields map[string]ast.Expr
+}
+
+// builtValues lists the values of the named struct type that fc puts together, in source order.
+func builtValues(fc *FuncCtx, typeName string) []*builtValue {
+	info := fc.Info()
+	isT := func(t types.Type) bool {
+		if t == nil {
+			return false
+		}
+		if pt, ok := t.Underlying().(*types.Pointer); ok {
+			t = pt.Elem()
+		}
+		return namedTypeName(t) == typeName
+	}
+	var out []*builtValue
+	byVar := map[types.Object]*builtValue{}
+	litOwner := map[*ast.CompositeLit]*builtValue{}
+	fromLit := func(cl *ast.CompositeLit) *builtValue {
+		if bv, ok := litOwner[cl]; ok {
+			return bv
+		}
+		bv := &builtValue{Pos: cl.Pos(), Fields: map[string]ast.Expr{}}
+		for _, el := range cl.Elts {
+			if kv, ok := el.(*ast.KeyValueExpr); ok {
+				if id, ok := kv.Key.(*ast.Ident); ok {
+					bv.Fields[id.Name] = kv.Value
+				}
+			}
+		}
+		litOwner[cl] = bv
+		out = append(out, bv)
+		return bv
+	}
+	litOf := func(e ast.Expr) *ast.CompositeLit {
+		e = ast.Unparen(e)
+		if u, ok := e.(*ast.UnaryExpr); ok && u.Op == token.AND {
+			e = ast.Unparen(u.X)
+		}
+		cl, _ := e.(*ast.CompositeLit)
+		if cl != nil && isT(info.TypeOf(cl)) {
+			return cl
+		}
+		return nil
+	}
+	isNewT := func(e ast.Expr) bool {
+		c, ok := ast.Unparen(e).(*ast.CallExpr)
+		if !ok || len(c.Args) != 1 {
+			return false
+		}
+		id, ok := ast.Unparen(c.Fun).(*ast.Ident)
+		return ok && id.Name == "new" && isT(info.TypeOf(c))
+	}
+	// a named result of the type is a zero declaration
+	for i := 0; fc.ResultObj(i) != nil; i++ {
+		o := fc.ResultObj(i)
+		if isT(o.Type()) {
+			if _, isPtr := o.Type().Underlying().(*types.Pointer); !isPtr {
+				bv := &builtValue{Pos: fc.Body.Pos(), Fields: map[string]ast.Expr{}}
+				byVar[o] = bv
+				out = append(out, bv)
+			}
+		}
+	}
+	ast.Inspect(fc.Body, func(n ast.Node) bool {
+		switch x := n.(type) {
+		case *ast.AssignStmt:
+			if len(x.Lhs) == len(x.Rhs) {
+				for i, l := range x.Lhs {
+					// v := &T{…} / v = new(T): the variable stands for the value from here on
+					if o := objOf(info, l); o != nil {
+						if cl := litOf(x.Rhs[i]); cl != nil {
+							byVar[o] = fromLit(cl)
+							continue
+						}
+						if isNewT(x.Rhs[i]) {
+							bv := &builtValue{Pos: x.Pos(), Fields: map[string]ast.Expr{}}
+							byVar[o] = bv
+							out = append(out, bv)
+							continue
+						}
+					}
+					// v.f = e
+					if sel, ok := ast.Unparen(l).(*ast.SelectorExpr); ok {
+						if o := objOf(info, sel.X); o != nil {
+							if bv := byVar[o]; bv != nil {
+								bv.Fields[sel.Sel.Name] = x.Rhs[i]
+							}
+						}
+					}
+				}
+			}
+		case *ast.ValueSpec:
+			for i, id := range x.Names {
+				o := info.Defs[id]
+				if o == nil {
+					continue
+				}
+				if i < len(x.Values) {
+					if cl := litOf(x.Values[i]); cl != nil {
+						byVar[o] = fromLit(cl)
+					} else if isNewT(x.Values[i]) {
+						bv := &builtValue{Pos: x.Pos(), Fields: map[string]ast.Expr{}}
+						byVar[o] = bv
+						out = append(out, bv)
+					}
+				} else if len(x.Values) == 0 && isT(o.Type()) {
+					if _, isPtr := o.Type().Underlying().(*types.Pointer); !isPtr {
+						bv := &builtValue{Pos: x.Pos(), Fields: map[string]ast.Expr{}}
+						byVar[o] = bv
+						out = append(out, bv)
+					}
+				}
+			}
+		case *ast.CompositeLit:
+			if isT(info.TypeOf(x)) {
+				fromLit(x)
+			}
+		}
+		return true
+	})
+	sort.SliceStable(out, func(i, j int) bool { return out[i].Pos < out[j].Pos })
 	return out
 }
